@@ -41,12 +41,15 @@ func (v Var) packageQualifier(pkg *types.Package) string {
 func varName(vr *types.Var, suffix string) string {
 	name := vr.Name()
 	if name != "" && name != "_" {
-		return name + suffix
+		name += suffix
+	} else {
+		name = varNameForType(vr.Type()) + suffix
 	}
 
-	name = varNameForType(vr.Type()) + suffix
-
 	switch name {
+	case "nil", "append", "panic", "error", "any":
+		// used by the generated method body or predeclared types
+		name += "MoqParam"
 	case "mock", "callInfo", "break", "default", "func", "interface", "select", "case", "defer", "go", "map", "struct",
 		"chan", "else", "goto", "package", "switch", "const", "fallthrough", "if", "range", "type", "continue", "for",
 		"import", "return", "var",
